@@ -202,7 +202,7 @@ def mw_get_target(next_, posargs_, target_file, target_format, spec_file, spec_f
     elif target_file:
         try:
             target_text = open(target_file).read()
-        except OSError as ose:
+        except (OSError, UnicodeError) as ose:  # (missing, unreadable or not text at all)
             raise UsageError(f'could not read target file {target_file!r}, got: {ose}')
     elif not target_text and not isatty(sys.stdin):
         target_text = sys.stdin.read()
